@@ -30,6 +30,17 @@ NOTE_VALUES = [int(x) for x in NOTECMD]
 
 U32 = (1 << 32) - 1
 ALPHABET = ["a", "Z", "0", " ", "-", "_", "é", "ß", "Ж", "中", "→", "\U0001d11e", "\U0001f600"]
+# layout >= 2: also characters that text codecs and normalisers give a special meaning to
+ALPHABET2 = ALPHABET + ["\ufeff", "\u200b", "\u00a0", "\u0301", "\u200f", "\ufffd", "\t", "\n", "\x01", "\x7f", "\u2028", "\ud7ff", "\ue000", "\U0010ffff", "/", "\\", "%", "{", "'", '"']
+
+# The interpretation of raw op values has versions ("layouts").  Layout 1 is frozen: stored
+# replay files were recorded with it.  New cases carry "layout": 2 (or later).
+CUR_LAYOUT = 1
+
+
+def set_layout(n):
+    global CUR_LAYOUT
+    CUR_LAYOUT = n or 1
 
 
 def mix(v, i=0):
@@ -38,7 +49,8 @@ def mix(v, i=0):
 
 def text_from(v, maxlen=40):
     n = v % (maxlen + 1)
-    return "".join(ALPHABET[mix(v, i) % len(ALPHABET)] for i in range(n))
+    alpha = ALPHABET2 if CUR_LAYOUT >= 2 else ALPHABET
+    return "".join(alpha[mix(v, i) % len(alpha)] for i in range(n))
 
 
 def bytes_from(v, maxlen):
@@ -61,6 +73,11 @@ def pick_int(v, lo, hi):
         return hi - 1
     if m == 4 and lo <= 0 <= hi:
         return 0
+    if m == 5 and CUR_LAYOUT >= 2:
+        # small magnitudes around zero and powers of two: -2, -1, 1, 2, 255, 256, ...
+        cands = [x for x in (-2, -1, 1, 2, 127, 128, 255, 256, 257, -128, -129, 32767, 32768, 65535) if lo <= x <= hi]
+        if cands:
+            return cands[w % len(cands)]
     return lo + w % (hi - lo + 1)
 
 
@@ -147,6 +164,8 @@ def pick_index(v, values, zero=0):
     """Element index biased to the boundaries of the list and of its non-default run
     (first, last, last non-default element, the one after it), uniform otherwise."""
     n = len(values)
+    if CUR_LAYOUT < 2:
+        return v % n  # layout 1 (frozen)
     m = v & 7
     w = v >> 3
     if m == 0:
@@ -164,11 +183,24 @@ def pick_index(v, values, zero=0):
     return w % n
 
 
-def _arr_slot(label, values, lo, hi, conv=None):
+def _arr_slot(label, values, lo, hi, conv=None, chunk=None):
+    """In-place element write; with layout >= 2 also whole-list assignment through the
+    public `values` attribute (a fresh copy of the class default / a fresh full list)."""
+
     def setter(v):
-        i = pick_index(v, values)
+        vals = chunk.values if chunk is not None else values
+        if CUR_LAYOUT >= 2 and chunk is not None and (v >> 3) % 16 in (0, 1):
+            kind = (v >> 3) % 16
+            default = getattr(type(chunk), "default", None)
+            if kind == 0 and isinstance(default, list):
+                chunk.values = list(default)  # "restore the default curve"
+                return
+            n = len(vals)
+            chunk.values = [(conv(pick_int(mix(v, j), lo, hi)) if conv else pick_int(mix(v, j), lo, hi)) for j in range(n)]
+            return
+        i = pick_index(v, vals)
         x = pick_int(v >> 10, lo, hi)
-        values[i] = conv(x) if conv else x
+        vals[i] = conv(x) if conv else x
 
     return (label, setter)
 
@@ -183,15 +215,15 @@ def payload_slots(mod, session):
     if t in ("Generator", "AnalogGenerator"):
         s.append(_arr_slot("drawn_waveform.samples", mod.drawn_waveform.samples, -128, 127))
     elif t == "Fmx":
-        s.append(_arr_slot("custom_waveform", mod.custom_waveform.values, -32768, 32767, lambda x: f32(x / 32768.0)))
+        s.append(_arr_slot("custom_waveform", mod.custom_waveform.values, -32768, 32767, lambda x: f32(x / 32768.0), chunk=mod.custom_waveform))
     elif t == "MultiSynth":
-        s.append(_arr_slot("nv_curve", mod.nv_curve.values, 0, 255))
-        s.append(_arr_slot("vv_curve", mod.vv_curve.values, 0, 255))
-        s.append(_arr_slot("np_curve", mod.np_curve.values, 0, 65535))
+        s.append(_arr_slot("nv_curve", mod.nv_curve.values, 0, 255, chunk=mod.nv_curve))
+        s.append(_arr_slot("vv_curve", mod.vv_curve.values, 0, 255, chunk=mod.vv_curve))
+        s.append(_arr_slot("np_curve", mod.np_curve.values, 0, 65535, chunk=mod.np_curve))
     elif t == "WaveShaper":
-        s.append(_arr_slot("curve", mod.curve.values, 0, 65535))
+        s.append(_arr_slot("curve", mod.curve.values, 0, 65535, chunk=mod.curve))
     elif t == "MultiCtl":
-        s.append(_arr_slot("curve", mod.curve.values, 0, 32768))
+        s.append(_arr_slot("curve", mod.curve.values, 0, 32768, chunk=mod.curve))
 
         def set_mapping(v):
             m = mod.mappings.values[v % 16]
@@ -229,7 +261,20 @@ def payload_slots(mod, session):
             tgt = proj.modules[m.module] if m.module < len(proj.modules) else None
             nctl = len(tgt.controllers) if tgt is not None else 3
             m.controller = (v >> 16) % (nctl + 2)
-            mod.update_user_defined_controllers()
+            # The loader refreshes the user-defined controllers' value types after reading the
+            # mappings; a live MetaModule only does so when asked.  Refresh here unless the new
+            # target is a plain non-negative range (then live and loaded value spaces coincide
+            # and the *stale* state - e.g. a value above the new target's maximum - is a
+            # legitimate thing to save); see DESIGN §5/C01 and §13.
+            skip = False
+            if CUR_LAYOUT >= 2 and tgt is not None and (v >> 40) & 1:
+                ctls = list(tgt.controllers.values())
+                if m.controller < len(ctls):
+                    tt = ctls[m.controller].instance_value_type(tgt)
+                    cur = mod.user_defined[i].value_type
+                    skip = type(tt) is Range and tt.min >= 0 and type(cur) is Range and cur.min >= 0
+            if not skip:
+                mod.update_user_defined_controllers()
 
         def set_label(v):
             i = v % 96
@@ -552,6 +597,7 @@ class Session:
     def apply(self, op):
         """Returns an outcome string.  Library refusals (RadiantVoicesError) are outcomes;
         anything else the library raises on an in-domain op is recorded as 'error:<Type>'."""
+        set_layout(self.layout)
         try:
             return self._apply(op) or "ok"
         except rv.errors.RadiantVoicesError as e:
@@ -773,6 +819,7 @@ def gen_link_op(r, foreign_p=0.0):
     return op
 
 
+WEIGHTS_V1 = {"mod": 3, "set": 10, "pset": 2, "pat": 1.5, "tset": 1, "cell": 3, "link": 4, "embed": 1.5}  # frozen: layout-1 gen specs
 DEFAULT_WEIGHTS = {"mod": 3, "set": 10, "pset": 2, "pat": 1.5, "tset": 1, "cell": 3, "link": 4, "embed": 1.5, "modkw": 1.2, "clone_mod": 0.8}
 
 
@@ -785,13 +832,13 @@ def gen_ops(r, n, weights=None, first_mods=3):
 def generated_file(spec):
     """Bytes of a library-written project built from a seeded op list."""
     r = seeds.rng(spec["seed"], "genfile")
-    s = Session()
+    s = Session(layout=spec.get("layout", 1))
     ops = []
     if spec.get("nest"):
         ops += [{"k": "mod", "t": TYPE_NAMES.index("MetaModule")}, {"k": "mod", "t": TYPE_NAMES.index("Sampler")}]
         ops += [{"k": "embed", "m": 0, "op": {"k": "mod", "t": TYPE_NAMES.index("MetaModule")}}]
         ops += [{"k": "embed", "m": 0, "op": {"k": "mod", "t": r.randrange(1000)}}]
-    ops += gen_ops(r, spec.get("n", 25))
+    ops += gen_ops(r, spec.get("n", 25), WEIGHTS_V1 if spec.get("layout", 1) < 2 else None)
     for op in ops:
         s.apply(op)
     if spec.get("nest"):
